@@ -74,6 +74,12 @@ theorem stable_step (cfg : Cfg) (n : Network) (d : Deb) (mask : Nat) (hn : n.cyc
         (rxWss_deb s b0 b1 t).trans hdeb⟩
       have hc : (rxLine cfg t s (.wss b0 b1)).1.cached = s.cached := k.2.1
       rw [hc]; exact List.Subset.refl _
+    | cpr c0 =>
+      have k := rxCpr_keeps s c0
+      refine ⟨fun e he => k.2.2.2.2.2 e he, k.1.trans hnet, k.2.2.1.trans hcd, k.2.2.2.1.trans hm, k.2.2.2.2.1, ?_,
+        (rxCpr_rest s c0).1.trans hdeb⟩
+      have hc : (rxLine cfg t s (.cpr c0)).1.cached = s.cached := k.2.1
+      rw [hc]; exact List.Subset.refl _
     | page pgno =>
       rcases (rxLine_page cfg t s pgno) with e | e
       · rw [e]; exact ⟨Silent_nil, hnet, hcd, hm, rfl, List.Subset.refl _, hdeb⟩
